@@ -1,4 +1,4 @@
 #!/bin/sh
-# tools/confirm_round2.sh <ID> ...  confirm round-2 seeds /tmp/seed2_<ID>/_seed/{1,2,3} as <ID>-{4,5,6} (full), 3 in parallel
-for id in "$@"; do for k in 1 2 3; do [ -f /tmp/seed2_$id/_seed/$k/patch.diff ] && echo "$id $k $((k+3))"; done; done | \
-  xargs -P 3 -L 1 sh -c '/verif/tools/confirm_seed.sh $0 $2 /tmp/seed2_$0/_seed/$1 full > /tmp/confirm2_$0_$2.log 2>&1; tail -1 /tmp/confirm2_$0_$2.log'
+# tools/confirm_round2.sh <ID> ...  confirm round-2 seeds /tmp/seed${ROUND:-2}_<ID>/_seed/{1,2,3} as <ID>-{4,5,6} (full), 3 in parallel
+for id in "$@"; do for k in 1 2 3; do [ -f /tmp/seed${ROUND:-2}_$id/_seed/$k/patch.diff ] && echo "$id $k $((k+${OFFSET:-3}))"; done; done | \
+  xargs -P 3 -L 1 sh -c '/verif/tools/confirm_seed.sh $0 $2 /tmp/seed${ROUND:-2}_$0/_seed/$1 full > /tmp/confirm2_$0_$2.log 2>&1; tail -1 /tmp/confirm2_$0_$2.log'
